@@ -4,6 +4,7 @@ func init() {
 	register(&PropertySpec{
 		ID: "C06",
 		Rules: []RuleSpec{
+			{"tx-compatible", "AddBlock and the consensus service's verifyBlock reject a block in which a transaction names another transaction of the same block in a Conflicts attribute, by a check of their own: the scratch pool both use replaces the named transaction instead of failing", ruleTxCompatible},
 			{"revalidate-covers-admission", "every admission check of verifyAndPoolTx that reads chain state is repeated by IsTxStillRelevant, the filter the pool goes through after every block, on every path that answers true: pooled transactions are not verified again when they come in a block, so the pool must hold valid transactions at every height", ruleRevalidateCoversAdmission},
 			{"err-discipline", "no error returned by a function of the module is discarded (called as a statement or assigned to _) in block acceptance (pkg/core, dao, block), except at the tabled sites whose reason is recorded: a dropped error is a dropped check or a lost write", func(c *Ctx) { ruleErrDiscipline(c, "pkg/core", "pkg/core/dao", "pkg/core/block") }},
 			{"absent-is-nil", "a lookup that returns nil for a missing key and may return a stored empty value (dao.GetStorageItem, BoltDB bucket Get) is never tested for absence by length", func(c *Ctx) { ruleAbsentIsNil(c, "pkg/core", "pkg/core/dao", "pkg/core/block") }},
@@ -384,6 +385,7 @@ func init() {
 	register(&PropertySpec{
 		ID: "C19",
 		Rules: []RuleSpec{
+			{"tx-compatible", "AddBlock and the consensus service's verifyBlock reject a block in which a transaction names another transaction of the same block in a Conflicts attribute, by a check of their own: the scratch pool both use replaces the named transaction instead of failing", ruleTxCompatible},
 			{"revalidate-covers-admission", "every admission check of verifyAndPoolTx that reads chain state is repeated by IsTxStillRelevant, the filter the pool goes through after every block, on every path that answers true: pooled transactions are not verified again when they come in a block, so the pool must hold valid transactions at every height", ruleRevalidateCoversAdmission},
 			{"epoch-mirror", "the list of allowed extensible senders, the ledger's mirror of NEO's next block validators, is rebuilt for exactly the block indices at which NEO.OnPersist replaces them: consensus payloads of newly elected validators are admitted from the first block of their epoch", ruleEpochMirror},
 			{"err-discipline", "no error returned by a function of the module is discarded (called as a statement or assigned to _) in the consensus service, except at the tabled sites whose reason is recorded: a dropped error is a dropped check or a lost write", func(c *Ctx) { ruleErrDiscipline(c, "pkg/consensus") }},
